@@ -150,7 +150,7 @@ class Recorder:
     pass
 
 
-def run(year, forms, policy, file_inputs=None, schedule=None, max_prompts=4000, writeback=None):
+def run(year, forms, policy, file_inputs=None, schedule=None, max_prompts=4000, writeback=None, fields=None):
     """Run the REAL solver. Returns a dict with verdict / exception, solver, answers given,
     prompts asked, the final ConfigParser of inputs."""
     from habutax import solver as hsolver, inputs as hinputs, forms as hforms
@@ -182,7 +182,7 @@ def run(year, forms, policy, file_inputs=None, schedule=None, max_prompts=4000, 
                exception=None, ok=None)
     try:
         try:
-            out['ok'] = s.solve(list(forms))
+            out['ok'] = s.solve(list(forms), field_names=list(fields)) if fields else s.solve(list(forms))
         finally:
             hsolver._verif_schedule = None
     except BaseException as e:   # noqa: BLE001 (RecursionError etc. are outcomes here)
